@@ -279,6 +279,9 @@ func c08Build(r *Rng, p gridPt) *Scenario {
 
 func genC08(seed uint64, i int, tier string) *Scenario {
 	r := NewRng(seed)
+	if i%7001 == 13 {
+		return genC08Big(r, i)
+	}
 	if tier == "thorough" {
 		g := c08Grid()
 		return c08Build(r, g[i%len(g)])
